@@ -59,6 +59,17 @@ func (w *world) roundTripAll() []given {
 			if err != nil {
 				return
 			}
+			// a document may spell an empty stack explicitly: the restored error then holds an
+			// empty, non-nil frame slice - still "no stack" for every renderer
+			var top map[string]json.RawMessage
+			if json.Unmarshal(b, &top) == nil {
+				if _, has := top["stack"]; !has {
+					top["stack"] = json.RawMessage("[]")
+					if b2, err := json.Marshal(top); err == nil {
+						b = b2
+					}
+				}
+			}
 			r, err := um.Unmarshal(b)
 			if err != nil {
 				return
